@@ -171,6 +171,10 @@ type scripted struct {
 	pos       int
 	reads     int
 	chunkSeed *rng // when set, unplanned reads are split into random short reads without error
+	// reenter, when set, is called once, inside the reenterAt-th Read, after the bytes of that
+	// read have been delivered: another complete library call made while this one is in progress
+	reenter   func()
+	reenterAt int
 }
 
 var errInjected = fmt.Errorf("injected read failure")
@@ -194,6 +198,11 @@ func (s *scripted) Read(buf []byte) (int, error) {
 	}
 	copy(buf, s.bytes[s.pos:s.pos+d])
 	s.pos += d
+	if s.reenter != nil && s.reads == s.reenterAt {
+		f := s.reenter
+		s.reenter = nil
+		f()
+	}
 	if r.err {
 		return d, errInjected
 	}
